@@ -64,6 +64,9 @@ fn main() {
 	let code = match prop.as_str() {
 		"C01" | "C02" | "C13" | "C15" => {
 			let h = EvH { prop: prop.clone() };
+			if prop == "C15" && (args.worker.is_some() || args.replay.is_some()) {
+				evh::calibrate();
+			}
 			if args.rest.get(1).map(String::as_str) == Some("--count") {
 				println!("{} scenarios", h.scenarios(args.tier).len());
 				return;
